@@ -4,10 +4,13 @@ Proofs/AgreeFnContext.lean — the `Context` implementations of src/context/mod.
 (`EmptyContext` ↦ `Ctx.empty`, `EmptyContextWithBuiltinFunctions` ↦ `Ctx.emptyWithBuiltins`,
 `HashMapContext` ↦ `Ctx.hashMap h`), for all inputs. `&mut self` methods return the new `self` next
 to their result; the Model returns `Res Ctx` (`setBuiltinsDisabled`, `setFunction`) or the new context.
-`HashMapContext::set_value` is NOT translated (writes through `get_mut`, outside the subset).
+`HashMapContext::set_value` writes through the reference obtained from `get_mut(key)`: rendered as
+`insert(key, value)` (translate_fn.py rule "entry reference"), and proved equal to `HashMapCtx.setValue`.
 -/
 import EvalexprVerif.Generated.FnContext
 import EvalexprVerif.Translate.Lemmas
+import EvalexprVerif.Proofs.AgreeFnError
+import EvalexprVerif.Proofs.AgreeFnValueType
 
 namespace Evalexpr.AgreeFn
 open Evalexpr
@@ -57,5 +60,62 @@ theorem fn_HashMapContext_clear_functions_agree (h : HashMapCtx) :
     (Gen.HashMapContext.clear_functions h).2 = h.clearFunctions := rfl
 theorem fn_HashMapContext_clear_agree (h : HashMapCtx) :
     (Gen.HashMapContext.clear h).2 = h.clear := rfl
+
+theorem fn_HashMapContext_new_agree : Gen.HashMapContext.new = ({} : HashMapCtx) := rfl
+theorem fn_HashMapContext_default_agree : Gen.HashMapContext.default = ({} : HashMapCtx) := rfl
+
+/-- `HashMapContext::set_value`: the result, and the new context when it succeeds -/
+theorem fn_HashMapContext_set_value_agree (h : HashMapCtx) (id : Str) (v : Value) :
+    HashMapCtx.setValue h id v =
+      (Gen.HashMapContext.set_value h id v).1.map (fun _ => (Gen.HashMapContext.set_value h id v).2) := by
+  simp only [Gen.HashMapContext.set_value, HashMapCtx.setValue, Rs.get_map, fn_ValueType_from_Value_agree,
+    fn_expected_type_agree, Rs.eq_valueType]
+  cases alookup id h.vars with
+  | none => rfl
+  | some existing => by_cases hty : existing.type = v.type <;> simp [hty, Rs.insert, Rs.ret, Rs.MonadFlow.liftFlow, Except.map]
+/-- … and a failing `set_value` leaves the context unchanged -/
+theorem fn_HashMapContext_set_value_error (h : HashMapCtx) (id : Str) (v : Value) (e : Err)
+    (he : (Gen.HashMapContext.set_value h id v).1 = .error e) : (Gen.HashMapContext.set_value h id v).2 = h := by
+  simp only [Gen.HashMapContext.set_value, Rs.get_map, fn_ValueType_from_Value_agree, Rs.eq_valueType] at he ⊢
+  cases hl : alookup id h.vars with
+  | none => simp [hl] at he
+  | some existing =>
+    by_cases hty : existing.type = v.type <;> simp [hl, hty, Rs.ret, Rs.MonadFlow.liftFlow] at he ⊢
+theorem fn_HashMapContext_set_value_ctx_agree (h : HashMapCtx) (id : Str) (v : Value) :
+    Ctx.setValue (.hashMap h) id v =
+      (Gen.HashMapContext.set_value h id v).1.map (fun _ => Ctx.hashMap (Gen.HashMapContext.set_value h id v).2) := by
+  simp only [Ctx.setValue, fn_HashMapContext_set_value_agree]
+  cases (Gen.HashMapContext.set_value h id v).1 <;> rfl
+
+/-! ### the default methods of `ContextWithMutableVariables` / `ContextWithMutableFunctions` (kept by a context
+that does not override them: the Model's `Ctx.noStorage`) -/
+theorem fn_ContextWithMutableVariables_set_value_agree (h : HashMapCtx) (id : Str) (v : Value) :
+    Ctx.setValue (.noStorage h) id v =
+      (Gen.ContextWithMutableVariables.set_value (.noStorage h) id v).1.map
+        (fun _ => (Gen.ContextWithMutableVariables.set_value (.noStorage h) id v).2) := rfl
+theorem fn_ContextWithMutableVariables_set_value_unchanged (c : Ctx) (id : Str) (v : Value) :
+    Gen.ContextWithMutableVariables.set_value c id v = (.error .contextNotMutable, c) := rfl
+theorem fn_ContextWithMutableFunctions_set_function_agree (h : HashMapCtx) (id : Str) (f : UserFn) :
+    Ctx.setFunction (.noStorage h) id f =
+      (Gen.ContextWithMutableFunctions.set_function (.noStorage h) id f).1.map
+        (fun _ => (Gen.ContextWithMutableFunctions.set_function (.noStorage h) id f).2) := rfl
+theorem fn_ContextWithMutableFunctions_set_function_unchanged (c : Ctx) (id : Str) (f : UserFn) :
+    Gen.ContextWithMutableFunctions.set_function c id f = (.error .contextNotMutable, c) := rfl
+
+/-! ### `IterateVariablesContext`: an iterator is the list of the items it yields. For the `HashMapContext` the order is
+the order of the Model's association list (`HashMap` iteration order is unspecified in Rust; the harness compares sorted). -/
+theorem fn_EmptyContext_iter_variables_agree : Gen.EmptyContext.iter_variables () = Ctx.iterVariables .empty := rfl
+theorem fn_EmptyContext_iter_variable_names_agree :
+    Gen.EmptyContext.iter_variable_names () = Ctx.iterVariableNames .empty := rfl
+theorem fn_EmptyContextWithBuiltinFunctions_iter_variables_agree :
+    Gen.EmptyContextWithBuiltinFunctions.iter_variables () = Ctx.iterVariables .emptyWithBuiltins := rfl
+theorem fn_EmptyContextWithBuiltinFunctions_iter_variable_names_agree :
+    Gen.EmptyContextWithBuiltinFunctions.iter_variable_names () = Ctx.iterVariableNames .emptyWithBuiltins := rfl
+theorem fn_HashMapContext_iter_variables_agree (h : HashMapCtx) :
+    Gen.HashMapContext.iter_variables h = Ctx.iterVariables (.hashMap h) := by
+  simp [Gen.HashMapContext.iter_variables, Ctx.iterVariables, Rs.iter, Rs.map]
+theorem fn_HashMapContext_iter_variable_names_agree (h : HashMapCtx) :
+    Gen.HashMapContext.iter_variable_names h = Ctx.iterVariableNames (.hashMap h) := by
+  simp [Gen.HashMapContext.iter_variable_names, Ctx.iterVariableNames, Ctx.iterVariables, Rs.keys]
 
 end Evalexpr.AgreeFn
